@@ -169,6 +169,48 @@ class AddDelegationsRejects(Contract):
     ensures = {'deleg.reject_duplicate_id_and_mixed_type': lambda pre, post: AddDelegationsRejects._c(pre, post)}
 
 
+class AddTwoDelegationsInOneCall(Contract):
+    """add_delegations(m1, m2): the two members are judged one after the other -- a duplicate id (against the container or
+    between the two arguments) and a member of the other type are rejected; every member stored is one of the arguments"""
+    target = T + 'Delegations.add_delegations'
+    props = ('C12',)
+    bounded = BOUND + '; two members in one call'
+
+    def inputs(self, g):
+        # the container holds one single-resource delegation; the members are single-resource / pool reference (the id
+        # bookkeeping does not look at formats or details)
+        t = g.pick(list(DelegationType), 'type')
+        zero = lambda: PObj(Capacities, {k: 0 for k in CAPF}) if t is DelegationType.CAPACITY else PObj(Labels, {k: None for k in LABF})
+
+        def mk(name, fmt):
+            did = g.atom(name)
+            return PObj(Delegation, dict(type=t, format=fmt, delegation_id=did, pool_id=None if fmt is DelegationFormat.SinglePool
+                                         else not_reserved(g, g.atom(name + '.pool')),
+                                         delegation_details=None if fmt is DelegationFormat.PoolReference else zero()))
+        d0 = mk('id0', DelegationFormat.SinglePool)
+        ds = PObj(Delegations, dict(type=t, delegations=PDict({fld(d0, 'delegation_id'): d0})))
+        return [ds, mk('id1', DelegationFormat.SinglePool), mk('id2', g.pick([DelegationFormat.SinglePool, DelegationFormat.PoolReference], 'format'))], {}
+
+    def body(self, h, ds, m1, m2):
+        return h.call(Delegations.add_delegations, ds, m1, m2)
+
+    @staticmethod
+    def _c(pre, post):
+        ds, m1, m2 = pre.args
+        d0, d1 = fld(ds, 'delegations'), fld(post.args[0], 'delegations')
+        i1, i2 = fld(m1, 'delegation_id'), fld(m2, 'delegation_id')
+        dup = Or(eq(i1, i2), *[eq(k, i1) for k in keys(d0)], *[eq(k, i2) for k in keys(d0)])
+        # ids under which something is stored afterwards are pairwise distinct and every stored member carries its own key
+        ks = keys(d1)
+        distinct = And(*[Not(eq(a, b)) for i, a in enumerate(ks) for b in ks[:i]])
+        keyed = And(*[eq(k, fld(fld(d1, k), 'delegation_id')) for k in ks])
+        if not returned(post):
+            return And(dup, distinct, keyed)
+        return And(Not(dup), distinct, keyed, len(ks) == len(keys(d0)) + 2)
+
+    ensures = {'deleg.duplicate_ids_within_one_call_rejected': lambda pre, post: AddTwoDelegationsInOneCall._c(pre, post)}
+
+
 # ------------------------------------------------------------------------------------------- pools
 def mk_pools(g):
     atype = g.pick(list(DelegationType), 'type')
@@ -264,6 +306,41 @@ class PoolsRegroup(Contract):
                'pools.regroup_reconstructs_or_known_defect_KF-C12-1': lambda pre, post: PoolsRegroup._c(pre, post, True)}
 
 
+def mk_three_pools(g):
+    """three pools on disjoint node sets (so no node needs two entries under one id), delegation ids in every pattern --
+    in particular the same id on the first and the last pool with another id in between"""
+    atype = g.pick(list(DelegationType), 'type')
+    nodes = [g.atom(f'node{i}') for i in range(6)]
+    for i in range(6):
+        for j in range(i):
+            g.assume(nodes[i].t != nodes[j].t)
+    dids = [g.atom('delA'), g.atom('delB')]
+    g.assume(dids[0].t != dids[1].t)
+    pools = PDict()
+    names = []
+    for i in range(3):
+        pid = not_reserved(g, g.atom(f'pool{i}'))
+        for o in names:
+            g.assume(pid.t != o.t)
+        names.append(pid)
+        did = g.pick(dids, f'pool{i} delegation id')
+        p = PObj(Pool, dict(type=atype, on_=nodes[2 * i], delegation_id=did, for_=PSet([nodes[2 * i + 1]]), pool_id=pid,
+                            pool_details=details(g, atype, f'pool{i}')))
+        pools.e[pid] = [True, p]
+    return PObj(Pools, dict(pool_by_id=pools, pools_by_delegation=None, pool_type=atype))
+
+
+class PoolsRegroupThree(PoolsRegroup):
+    """the same reconstruction for three pools whose delegation ids interleave (A, B, A ...)"""
+    bounded = 'three pools on disjoint node pairs, delegation ids in all 8 patterns over two ids'
+    max_paths = 20000
+
+    def inputs(self, g):
+        return [mk_three_pools(g)], {}
+
+    ensures = {'pools.regroup_reconstructs': lambda pre, post: PoolsRegroup._c(pre, post, False)}
+
+
 class PoolDefinedOnce(Contract):
     target = T + 'Pools.incorporate_delegation'
     props = ('C12',)
@@ -299,4 +376,4 @@ class PoolDefinedOnce(Contract):
     ensures = {'pools.second_definition_rejected': lambda pre, post: PoolDefinedOnce._c(pre, post)}
 
 
-CONTRACTS = [DelegationsRoundTrip, SetDetailsRejects, AddDelegationsRejects, PoolsRegroup, PoolDefinedOnce]
+CONTRACTS = [DelegationsRoundTrip, SetDetailsRejects, AddDelegationsRejects, AddTwoDelegationsInOneCall, PoolsRegroup, PoolsRegroupThree, PoolDefinedOnce]
